@@ -47,11 +47,12 @@ VARIABLES cfg,      \* QoS of the service of the current run
           sst, sbuf, sreq, \* subscriber state ("new","live","abandoned","dead"), buffer, history request
           conn, hist, loans, ck, nextid,
           out,      \* observable result of the last call
-          slog, regAt, rcvd, evicted   \* ghost history (property layer)
+          slog, regAt, rcvd, evicted,  \* ghost history (property layer)
+          kd        \* tags of KNOWN-DEFECT shapes an execution went through (see AllowKnown)
 
 sysvars   == <<cfg, pst, pn, sst, sbuf, sreq, conn, hist, loans, ck, nextid>>
-ghostvars == <<slog, regAt, rcvd, evicted>>
-vars      == <<cfg, pst, pn, sst, sbuf, sreq, conn, hist, loans, ck, nextid, out, slog, regAt, rcvd, evicted>>
+ghostvars == <<slog, regAt, rcvd, evicted, kd>>
+vars      == <<cfg, pst, pn, sst, sbuf, sreq, conn, hist, loans, ck, nextid, out, slog, regAt, rcvd, evicted, kd>>
 
 Pairs == PubIds \X SubIds
 
@@ -93,15 +94,24 @@ Apply(m, d(_)) ==
 ChunksInUse(p) == {ck[p][x].c : x \in DOMAIN ck[p]}
 FreeChunks(p) == (0 .. pn[p] - 1) \ ChunksInUse(p)
 
-\* Two places where the code is MORE permissive than its documentation (reported as candidate
-\* findings, see checks/C01.py / C08.py notes).  Strict = FALSE follows the code, so that the unchanged tree
-\* is accepted; overriding it with TRUE in a cfg (Strict <- TrueValue) makes the specification follow the
-\* documentation instead:
-\*  (1) a publisher that is dropped before a registered subscriber attached to their connection loses
-\*      the samples it sent to it (although send reported that subscriber as recipient);
-\*  (2) subscriber_max_borrowed_samples is enforced per connection, not per subscriber.
-Strict == FALSE
+\* The specification follows the DOCUMENTATION / the property statements.  In two places the code
+\* deviates (both confirmed on the real code, listed in known_findings.json); an execution may go through
+\* exactly these two shapes if AllowKnown holds, and is then TAGGED in `kd`:
+\*  "sample-lost" (C01)  a publisher is dropped while a registered subscriber has not yet attached its
+\*      receiver side to their connection (no receive / has_samples / update_connections since the
+\*      publisher was created): the samples waiting for that subscriber are discarded with the connection,
+\*      although send counted the subscriber as recipient.  Documented behaviour: they stay receivable.
+\*  "borrow-per-connection" (C08)  a receive succeeds although the subscriber already holds
+\*      subscriber_max_borrowed_samples samples, because the serving connection itself is below the limit
+\*      (the limit is enforced per publisher connection).  Documented behaviour: ExceedsMaxBorrows.
+\* Nothing else is excused.  AllowKnown is TRUE for trace validation (the checks report every tag through
+\* ctx.report with its narrow signature) and overridden with FALSE in every model-checking instance, which
+\* therefore verifies the documented behaviour.
+AllowKnown == TRUE
 TrueValue == TRUE
+FalseValue == FALSE
+KD_SampleLost == "sample-lost"
+KD_BorrowPerConn == "borrow-per-connection"
 
 NoOut == [a |-> "none"]
 EmptyMap == [x \in {} |-> 0]
@@ -125,6 +135,7 @@ InitWith(q) ==
     /\ regAt = TLCEval([x \in Pairs |-> 0])
     /\ rcvd = TLCEval([x \in Pairs |-> <<>>])
     /\ evicted = TLCEval([x \in Pairs |-> {}])
+    /\ kd = {}
 
 Reset(q) ==
     /\ cfg' = q
@@ -143,6 +154,7 @@ Reset(q) ==
     /\ regAt' = TLCEval([x \in Pairs |-> 0])
     /\ rcvd' = TLCEval([x \in Pairs |-> <<>>])
     /\ evicted' = TLCEval([x \in Pairs |-> {}])
+    /\ kd' = {}
 
 -----------------------------------------------------------------------------
 \* publisher side connection update (force_update_connections)
@@ -188,24 +200,29 @@ CreatePublisher(p, n) ==
             /\ UNCHANGED <<cfg, sst, sbuf, sreq, hist, loans, ck, nextid, ghostvars>>
 
 \* precondition: every loan was returned before (the driver drops them first)
+\* The sender sides go away; a connection that still holds data or borrows survives on the subscriber side
+\* (expired connection) and stays receivable.  Known-defect shape "sample-lost": the connections whose
+\* receiver side is not attached yet are destroyed together with their samples.
+Unattached(p) == {s \in SubIds : C(p, s).pa /\ ~C(p, s).sa /\ sst[s] = "live" /\ C(p, s).sq # <<>>}
 DropPublisher(p) ==
     /\ pst[p] = "live"
     /\ loans[p] = {}
     /\ pst' = [pst EXCEPT ![p] = "dead"]
-    \* the sender sides go away; a connection survives on the subscriber side (expired connection)
-    \* iff the receiver is attached and it still holds data or borrows
-    /\ conn' = TLCEval([x \in Pairs |->
-                  IF x[1] # p THEN conn[x]
-                  ELSE LET c == conn[x] IN
-                       IF c.pa /\ (c.sa \/ Strict) /\ sst[x[2]] = "live" /\ (c.sq # <<>> \/ c.bor # {})
-                       THEN [c EXCEPT !.pa = FALSE, !.cq = {}]
-                       ELSE IF c.pa /\ c.sa /\ sst[x[2]] = "abandoned"
-                       THEN [c EXCEPT !.pa = FALSE, !.cq = {}]
-                       ELSE EmptyConn])
+    /\ \E lose \in (IF AllowKnown /\ Unattached(p) # {} THEN {FALSE, TRUE} ELSE {FALSE}) :
+        /\ conn' = TLCEval([x \in Pairs |->
+                      IF x[1] # p THEN conn[x]
+                      ELSE LET c == conn[x] IN
+                           IF lose /\ x[2] \in Unattached(p) THEN EmptyConn
+                           ELSE IF c.pa /\ sst[x[2]] = "live" /\ (c.sq # <<>> \/ c.bor # {})
+                           THEN [c EXCEPT !.pa = FALSE, !.sa = TRUE, !.cq = {}]
+                           ELSE IF c.pa /\ c.sa /\ sst[x[2]] = "abandoned"
+                           THEN [c EXCEPT !.pa = FALSE, !.cq = {}]
+                           ELSE EmptyConn])
+        /\ kd' = IF lose THEN kd \cup {KD_SampleLost} ELSE kd
     /\ hist' = [hist EXCEPT ![p] = <<>>]
     /\ ck' = [ck EXCEPT ![p] = EmptyMap]
     /\ out' = [a |-> "drop_pub", p |-> p]
-    /\ UNCHANGED <<cfg, pn, sst, sbuf, sreq, loans, nextid, ghostvars>>
+    /\ UNCHANGED <<cfg, pn, sst, sbuf, sreq, loans, nextid, slog, regAt, rcvd, evicted>>
 
 SubCreateErrors(b, r) ==
     (IF b > cfg.bufmax THEN {"BufferSizeExceedsMaxSupportedBufferSizeOfService"} ELSE {})
@@ -225,7 +242,7 @@ CreateSubscriber(s, b, r) ==
             /\ conn' = SubAttach(conn, s)
             /\ regAt' = TLCEval([x \in Pairs |-> IF x[2] = s THEN Len(slog[x[1]]) ELSE regAt[x]])
             /\ out' = [a |-> "create_sub", s |-> s, buf |-> b, req |-> r, r |-> "ok"]
-            /\ UNCHANGED <<cfg, pst, pn, hist, loans, ck, nextid, slog, rcvd, evicted>>
+            /\ UNCHANGED <<cfg, pst, pn, hist, loans, ck, nextid, slog, rcvd, evicted, kd>>
 
 \* Samples may still be alive (they keep the receiver alive); the publisher reclaims everything
 \* the vanished subscriber owned at its next connection update.
@@ -332,26 +349,31 @@ Send(p, id) ==
                                                   n |-> IF res = "ok" THEN Card(acc) ELSE -1])]
        /\ evicted' = TLCEval([x \in Pairs |-> IF x[1] = p /\ x[2] \in T /\ Ev(x[2]) # 0
                                        THEN evicted[x] \cup {Ev(x[2])} ELSE evicted[x]])
-    /\ UNCHANGED <<cfg, pst, pn, sst, sbuf, sreq, nextid, regAt, rcvd>>
+    /\ UNCHANGED <<cfg, pst, pn, sst, sbuf, sreq, nextid, regAt, rcvd, kd>>
 
 \* connections of s that hold data / from which a receive is possible (after its connection update)
 WithData(s) == {p \in PubIds : C(p, s).sq # <<>>}
 BorrowedBy(s) == UNION {C(p, s).bor : p \in PubIds}
-Eligible(s) == {p \in WithData(s) : IF Strict THEN Card(BorrowedBy(s)) < cfg.borrow
-                                                ELSE Card(C(p, s).bor) < cfg.borrow}
+\* documented: a subscriber borrows at most cfg.borrow samples in parallel
+Eligible(s) == IF Card(BorrowedBy(s)) < cfg.borrow THEN WithData(s) ELSE {}
+\* known-defect shape "borrow-per-connection": the limit is only enforced per connection
+EligibleKnown(s) == IF AllowKnown /\ Eligible(s) = {}
+                    THEN {p \in WithData(s) : Card(C(p, s).bor) < cfg.borrow} ELSE {}
 
 \* Subscriber::receive; p = the connection that is served (unspecified which one)
 Receive(s, p) ==
     /\ sst[s] = "live"
-    /\ IF Eligible(s) # {}
-       THEN /\ p \in Eligible(s)
+    /\ IF Eligible(s) \cup EligibleKnown(s) # {}
+       THEN /\ p \in Eligible(s) \cup EligibleKnown(s)
             /\ LET id == Head(C(p, s).sq) IN
                /\ conn' = [SubAttach(conn, s) EXCEPT ![<<p, s>>] =
                               [@ EXCEPT !.sq = Tail(@), !.bor = @ \cup {id}]]
                /\ rcvd' = [rcvd EXCEPT ![<<p, s>>] = Append(@, id)]
                /\ out' = [a |-> "recv", s |-> s, r |-> "some", p |-> p, id |-> id]
+            /\ kd' = IF Eligible(s) = {} THEN kd \cup {KD_BorrowPerConn} ELSE kd
        ELSE /\ conn' = SubAttach(conn, s)
             /\ rcvd' = rcvd
+            /\ kd' = kd
             /\ out' = [a |-> "recv", s |-> s, r |-> IF WithData(s) # {} THEN "ExceedsMaxBorrows" ELSE "none",
                        p |-> 0, id |-> 0]
     /\ UNCHANGED <<cfg, pst, pn, sst, sbuf, sreq, hist, loans, ck, nextid, slog, regAt, evicted>>
@@ -521,6 +543,7 @@ LimitsRespected ==
     /\ Card(RegS) <= cfg.maxsubs
     /\ \A p \in PubIds : Card(loans[p]) <= cfg.loan /\ Len(hist[p]) <= cfg.hist
     /\ \A x \in ActivePairs : Card(conn[x].bor) <= cfg.borrow
+    /\ KD_BorrowPerConn \notin kd => \A s \in SubIds : Card(BorrowedBy(s)) <= cfg.borrow
     /\ \A x \in ActivePairs : conn[x].pa \/ conn[x].sa => Len(conn[x].sq) <= sbuf[x[2]]
 \* beyond: a rejected call has no side effect on anything observable
 Errors == {"ExceedsMaxSupportedPublishers", "ExceedsMaxSupportedSubscribers", "ExceedsMaxLoans",
